@@ -147,6 +147,59 @@ theorem try_slice_frame (cfg : Cfg) (s : State) (h d k : Nat) (sb eb : Bound) (v
   | none => rfl
   | some ab => exact HipVerif.Str.sget_set_other _ _ _ _ (Ne.symm hk)
 
+/-- `inside relNeg rel plen len`: a probe slice of `plen` bytes starting `rel` bytes after
+(`relNeg = false`) or before (`relNeg = true`) the first byte of a value of `len` bytes lies
+address-wise inside the value. -/
+def inside (relNeg : Bool) (rel plen len : Nat) : Bool :=
+  (!relNeg || rel == 0) && decide (rel + plen ≤ len)
+
+private theorem opok_ref {cfg : Cfg} {s : State} {h rel : Nat} {v : List UInt8} (w : Wf cfg s)
+    (hg : sget (abs s) h = some v) (hl : v.length ≤ isizeMax) (ha : rel + 1 + v.length < U) :
+    ∀ hd, getH s h = some hd → hlen hd ≤ isizeMax ∧ rel + 1 + hlen hd < U := by
+  intro hd hgh
+  rw [sget_abs, hgh] at hg
+  have hv : view s hd = v := by simpa using hg
+  have := A.view_length (w.handles h hd hgh)
+  rw [← this, hv]; exact ⟨hl, ha⟩
+
+/-- `try_slice_ref` accepts EXACTLY the probes lying address-wise inside the value — adjacent-before,
+adjacent-after, straddling and foreign probes are refused, an empty probe at either end is accepted —
+and returns exactly that sub-range; a refusal changes no value.  (Hypotheses: the probe and the value
+are Rust slices — at most `isize::MAX` long, not wrapping the address space.) -/
+theorem try_slice_ref_spec (cfg : Cfg) (s : State) (h d : Nat) (relNeg : Bool) (rel plen : Nat) (v : List UInt8)
+    (w : Wf cfg s) (hg : sget (abs s) h = some v) (hf : slotFree s d = true)
+    (hp : plen ≤ isizeMax) (ha : 2 * rel + 1 + plen < U) (hl : v.length ≤ isizeMax) (hb : rel + 1 + v.length < U) :
+    (abs (step cfg s (.trySliceRef h d relNeg rel plen)).1,
+        eraseRet (step cfg s (.trySliceRef h d relNeg rel plen)).2.ret) =
+      if inside relNeg rel plen v.length then ((abs s).set d (some ((v.drop rel).take plen)), .bool true)
+      else (abs s, .bool false) := by
+  rw [← ref_op_trySliceRef h d relNeg rel plen w ⟨hp, ha, opok_ref w hg hl hb⟩]
+  simp only [Spec.Std.step, hg, sfree_abs, hf, if_true, inside]
+  by_cases hc : ((!relNeg || rel == 0) && decide (rel + plen ≤ v.length)) = true
+  · simp only [hc, if_true]
+  · simp only [hc]
+
+/-- `slice_ref` returns the same sub-range and panics exactly when `try_slice_ref` refuses. -/
+theorem slice_ref_spec (cfg : Cfg) (s : State) (h d : Nat) (relNeg : Bool) (rel plen : Nat) (v : List UInt8)
+    (w : Wf cfg s) (hg : sget (abs s) h = some v) (hf : slotFree s d = true)
+    (hp : plen ≤ isizeMax) (ha : 2 * rel + 1 + plen < U) (hl : v.length ≤ isizeMax) (hb : rel + 1 + v.length < U) :
+    (abs (step cfg s (.sliceRef h d relNeg rel plen)).1,
+        eraseRet (step cfg s (.sliceRef h d relNeg rel plen)).2.ret) =
+      if inside relNeg rel plen v.length then ((abs s).set d (some ((v.drop rel).take plen)), .unit)
+      else (abs s, .panic) := by
+  rw [← ref_op_sliceRef h d relNeg rel plen w ⟨hp, ha, opok_ref w hg hl hb⟩]
+  simp only [Spec.Std.step, hg, sfree_abs, hf, if_true, inside]
+  by_cases hc : ((!relNeg || rel == 0) && decide (rel + plen ≤ v.length)) = true
+  · simp only [hc, if_true]
+  · simp only [hc]
+
+/-- the boundary probes the property names, on a 5-byte value -/
+example : inside false 5 0 5 = true ∧ inside false 0 0 5 = true ∧   -- empty at either end: accepted
+    inside false 5 1 5 = false ∧                                    -- adjacent after
+    inside true 1 1 5 = false ∧                                     -- adjacent before
+    inside true 1 3 5 = false ∧ inside false 3 3 5 = false ∧        -- straddling either end
+    inside false 1 3 5 = true := by decide
+
 /-! Non-vacuity: the boundary cases the property names.  On a 5-byte value `..=usize::MAX` and
 `(Excluded(usize::MAX), ..)` are rejected (not `Ok(empty)` / `Ok(whole)`), `1..=3` is accepted. -/
 
